@@ -413,6 +413,39 @@ Fixpoint run_ops (ops : list sx) (s : stream) : list sx :=
 
 Definition zbool (z : Z) : bool := negb (z =? 0)%Z.
 
+(* ---- histories on one object ----
+   Muxer as a state machine: the state is the list of Write calls issued so far (the muxer
+   struct itself holds only the writer).  Values are persistent in the model: nothing a later
+   call does can change what an earlier call wrote or returned -- if the implementation aliased
+   caller buffers or reused result buffers, the end-of-history observation would differ. *)
+Definition mstate := list bytes.
+Definition write_header (st : mstate) (hv ha : bool) : mstate := st ++ [mux_header hv ha].
+Definition write_tag (st : mstate) (t : tag) : mstate := st ++ mux_tag_writes t.
+
+(* the harness flips (b -> 255 - b, Go ^b) the bytes of a buffer it owns *)
+Definition flip (b : bytes) : bytes := map (fun x => 255 - x) b.
+
+(* flip the bodies of the tags whose (cyclic) flag is non-zero *)
+Fixpoint flip_tags (tags : list tag) (rest all : list N) : list tag :=
+  match tags with
+  | [] => []
+  | t :: ts =>
+      let (f, rest') := next_size rest all in
+      (if f =? 0 then t else mk_tag (t_type t) (t_ts t) (flip (t_body t))) :: flip_tags ts rest' all
+  end.
+
+(* write operation of a history: (type ts body mut); mut only drives the harness *)
+Definition sx_wop (x : sx) : option tag :=
+  match x with
+  | SL [ty; ts; b; SZ _] => sx_tag (SL [ty; ts; b])
+  | _ => None
+  end.
+Fixpoint sx_wops (l : list sx) : option (list tag) :=
+  match l with
+  | [] => Some []
+  | x :: t => match sx_wop x, sx_wops t with Some a, Some r => Some (a :: r) | _, _ => None end
+  end.
+
 Definition run_c09 (c : sx) : sx :=
   match c with
   | SL [SZ k; SZ hv; SZ ha; SL tgs; SL szs; SZ cut; SZ fault] =>
@@ -438,6 +471,22 @@ Definition run_c09 (c : sx) : sx :=
           SB (mux_tag_trailer_n len);
           sN (13 + 11 + len + 4);
           SL ([sN 13; sN 11] ++ (if len =? 0 then [] else [sN len]) ++ [sN 4])]
+  | SL [SZ 6%Z; SZ hv; SZ ha; SL wops; SL szs; SL fls] =>
+      (* history on one Muxer and one Demuxer: WriteHeader, one WriteTag per wop from a caller
+         buffer that is reused (and possibly scribbled over) after every call; then the file is
+         read tag by tag, every returned body is kept, the flagged ones are flipped in place by
+         the caller right after the read; everything is observed at the end only *)
+      match sx_wops wops, sx_Ns szs, sx_Ns fls with
+      | Some tags, Some sizes, Some flags =>
+          let wire := mux (zbool hv) (zbool ha) tags in
+          let writes := map (fun w => sN (lenN w)) (mux_writes (zbool hv) (zbool ha) tags) in
+          let r := match demux (S (length tags)) (mk_stream wire sizes (-1) (-1)) with
+                   | Ok (h, tgs, e) => Ok (h, flip_tags tgs flags flags, e)
+                   | x => x
+                   end in
+          SL [SB wire; SL writes; obs_demux r]
+      | _, _, _ => bad_case
+      end
   | SL [SZ 3%Z; SB wire; SL szs; SZ cut; SZ fault; SL ops] =>
       match sx_Ns szs with
       | Some sizes => SL (run_ops ops (mk_stream wire sizes cut fault))
@@ -463,7 +512,78 @@ Definition obs_opt (o : option Z) : sx :=
    (2 codec ftype trait cts raw)           video frame : (enc  dec(enc))
    (3 body)  audio body : (dec body  enc(dec body) | x)
    (4 body)  video body : likewise
-   (5 v)     ToHz, OpusToHz, From, OpusFrom, AudioChannels.From of code v *)
+   (5 v)     ToHz, OpusToHz, From, OpusFrom, AudioChannels.From of code v
+   (6 op...) history on one packager pair, op = (1 frame.. mut) | (2 frame.. mut) | (3 body mut)
+             | (4 body mut); results observed at the end *)
+(* ---- histories on one packager pair ----
+   audioPackager and videoPackager are empty structs: the state is unit, every result is a
+   persistent value and a function of its own call only. *)
+Definition pstate := unit.
+Inductive pop :=
+| AEnc (f : aframe) | VEnc (f : vframe)
+| ADec (b : bytes) (mut : bool) | VDec (b : bytes) (mut : bool).
+Inductive pres :=
+| REnc (b : bytes)
+| RADec (r : res aframe) (tag_prefix : bytes)
+| RVDec (r : res vframe) (tag_prefix : bytes).
+
+(* Decode returns Raw as the tail of the tag it was given (a_raw / v_raw is a suffix of the
+   input).  A caller that flips the decoded Raw in place may, through that sharing, change the
+   tail of its tag buffer -- never the bytes before it: [tag_prefix] is what is observed. *)
+Definition prefix_before (tg raw : bytes) : bytes :=
+  match take (N.to_nat (lenN tg - lenN raw)) tg with Some (a, _) => a | None => tg end.
+
+Definition pstep (st : pstate) (o : pop) : pstate * pres :=
+  (st, match o with
+       | AEnc f => REnc (audio_enc f)
+       | VEnc f => REnc (video_enc f)
+       | ADec b mut =>
+           match audio_dec b with
+           | Ok f => RADec (Ok (if mut then mk_aframe (a_fmt f) (a_rate f) (a_size f) (a_type f) (a_trait f)
+                                                    (a_level f) (flip (a_raw f)) else f))
+                           (prefix_before b (a_raw f))
+           | r => RADec r b
+           end
+       | VDec b mut =>
+           match video_dec b with
+           | Ok f => RVDec (Ok (if mut then mk_vframe (v_codec f) (v_ftype f) (v_trait f) (v_cts f)
+                                                    (flip (v_raw f)) else f))
+                           (prefix_before b (v_raw f))
+           | r => RVDec r b
+           end
+       end).
+
+Fixpoint prun (st : pstate) (ops : list pop) : list pres :=
+  match ops with
+  | [] => []
+  | o :: rest => let (st', r) := pstep st o in r :: prun st' rest
+  end.
+
+Definition sx_pop (x : sx) : option pop :=
+  match x with
+  | SL [SZ 1%Z; SZ fm; SZ rt; SZ sz; SZ ty; SZ tr; SZ lv; SB raw; SZ _] =>
+      Some (AEnc (mk_aframe (Z.to_N fm) (Z.to_N rt) (Z.to_N sz) (Z.to_N ty) (Z.to_N tr) (Z.to_N lv) raw))
+  | SL [SZ 2%Z; SZ cd; SZ ft; SZ tr; SZ cts; SB raw; SZ _] =>
+      Some (VEnc (mk_vframe (Z.to_N cd) (Z.to_N ft) (Z.to_N tr) cts raw))
+  | SL [SZ 3%Z; SB body; SZ m] => Some (ADec body (zbool m))
+  | SL [SZ 4%Z; SB body; SZ m] => Some (VDec body (zbool m))
+  | _ => None
+  end.
+Fixpoint sx_pops (l : list sx) : option (list pop) :=
+  match l with
+  | [] => Some []
+  | x :: t => match sx_pop x, sx_pops t with Some a, Some r => Some (a :: r) | _, _ => None end
+  end.
+
+(* end-of-history observation of one result; an encoded tag is also decoded at the end.
+   The first element tells which decoder applies to a kept tag (1 audio, 2 video). *)
+Definition obs_pres (o : pop) (r : pres) : sx :=
+  match r with
+  | REnc e => SL [SB e; match o with VEnc _ => obs_vdec (video_dec e) | _ => obs_adec (audio_dec e) end]
+  | RADec d p => SL [obs_adec d; SB p]
+  | RVDec d p => SL [obs_vdec d; SB p]
+  end.
+
 Definition run_c10 (c : sx) : sx :=
   match c with
   | SL [SZ 1%Z; SZ fm; SZ rt; SZ sz; SZ ty; SZ tr; SZ lv; SB raw] =>
@@ -478,6 +598,13 @@ Definition run_c10 (c : sx) : sx :=
   | SL [SZ 4%Z; SB body] =>
       let r := video_dec body in
       SL [obs_vdec r; match r with Ok f => SB (video_enc f) | _ => SB [] end]
+  | SL (SZ 6%Z :: ops) =>
+      (* history: all calls on one AudioPackager and one VideoPackager, results kept and
+         observed after the last call *)
+      match sx_pops ops with
+      | Some pops => SL (map (fun '(o, r) => obs_pres o r) (combine pops (prun tt pops)))
+      | None => bad_case
+      end
   | SL [SZ 5%Z; SZ v] =>
       let n := Z.to_N v in
       SL [obs_opt (to_hz n); obs_opt (opus_to_hz n); obs_opt (rate_from n); obs_opt (rate_opus_from n);
